@@ -42,5 +42,6 @@ PLANS = {
         mcgen=[dict(model="MC_Round", quick="MC_Round_quick.cfg", thorough="MC_Round_thorough.cfg")],
         drive=True,
     ),
+    "C17": dict(drive=True, shard=1500),
     "C18": dict(mc=[], gen=[], drive=True),
 }
